@@ -39,7 +39,7 @@ func (impl Implementation) Dlange(norm lapack.MatrixNorm, m, n int, a []float64,
 
 	switch {
 	case len(a) < (m-1)*lda+n:
-		panic(badLdA)
+		panic(shortA)
 	case norm == lapack.MaxColumnSum && len(work) < n:
 		panic(shortWork)
 	}
